@@ -390,10 +390,14 @@ def run(ctx, chk, tier="quick"):
 
     # ------------------------------------------------------------ ins files
     markers = {}
+    seen_widths = set()
+    item_formats = {}       # values written one per line with a hand-made format, not by yaml.dump
     for fq, label in (("simulate_rise.simulate_rise", "rise"), ("simulate_recession.dump_simulated_recession", "recession")):
         g = ctx.func(fq)
         for wcall, marker, dump in vector_dumps(ctx, g):
             markers[label] = marker.strip()
+            if dump is not None and getattr(dump, "item_format", None) is not None:
+                item_formats[label] = (g, dump.loop, dump.item_format)
     for kind in KINDS:
         k = (kind, "ins", "spline", "spline")
         if k not in built:
@@ -420,6 +424,25 @@ def run(ctx, chk, tier="quick"):
                    "starts at column 3 (after '- ') and is at least 24 columns wide (longest repr of a float)",
                    key="%s|window|%d:%d" % (f.qualname, a, b),
                    why="a value such as -1.2345678901234568e-05 (23 characters) is cut, PEST reads a different number")
+            # a writer that formats the items itself fixes their width: it must fit the window that reads them
+            from .c17 import common_item_width, max_item_width
+            for label_, (g_, loop_, spec_) in sorted(item_formats.items()):
+                if (kind == "rise" and label_ != "rise") or (kind, label_, width) in seen_widths:
+                    continue
+                seen_widths.add((kind, label_, width))
+                wmax, wneg = max_item_width(spec_), common_item_width(spec_)
+                if wmax is None:
+                    chk.indeterminate("C19.O5", where_of(g_, loop_), "width of items written with format %r is not read" % spec_)
+                elif wneg is not None and wneg > width:
+                    chk.ob("C19.O5", False, where_of(g_, loop_), "%s values are written as '- {:%s}': %d characters for any negative value, read by the %s .ins window %d:%d (%d columns)" % (
+                               label_, spec_, wneg, kind, a, b, width),
+                           "what the simulation writes fits the columns the instruction file reads", key="%s|item-width|%s|%s" % (g_.qualname, kind, label_),
+                           why="the last digit of the exponent of every negative value falls outside the window: PEST reads -3.018e+0 for -3.018e+01")
+                elif wmax > width:
+                    chk.info("C19.O5", where_of(g_, loop_), "items '- {:%s}' can take %d characters (three-digit exponent, sign); window %d:%d has %d: the window finding above covers it" % (spec_, wmax, a, b, width), "see window")
+                else:
+                    chk.ob("C19.O5", True, where_of(g_, loop_), "%s values written as '- {:%s}' (at most %d characters) fit the window %d:%d" % (label_, spec_, wmax, a, b),
+                           "what the simulation writes fits the columns the instruction file reads", key="%s|item-width|%s|%s" % (g_.qualname, kind, label_))
             chk.ob("C19.O5", it.template.startswith("l1 "), where_of(f, it.node), "instruction %r" % it.template.split()[0],
                    "l1: one value per line of the YAML list", key="%s|line-advance|%s" % (f.qualname, it.start.key()))
 
